@@ -1762,8 +1762,9 @@ var c01ClassMessages = map[string][]string{
 func c01ClauseMentions(info *types.Info, cc *ast.CaseClause, frags []string) bool {
 	found := false
 	ast.Inspect(cc, func(m ast.Node) bool {
-		if bl, ok := m.(*ast.BasicLit); ok && bl.Kind == token.STRING {
-			if s, ok := stringValue(info, bl); ok {
+		// any constant string expression: a literal or a named constant
+		if e, ok := m.(ast.Expr); ok {
+			if s, ok := stringValue(info, e); ok {
 				for _, f := range frags {
 					if strings.Contains(s, f) {
 						found = true
